@@ -2413,6 +2413,39 @@ func (s *Store) ensureCheckTxn(tx WriteTxn, idx uint64, preserveIndexes bool, hc
 		return ErrMissingNode
 	}
 
+	// If an existing check moves to another service (or between node level and
+	// service level), every lookup that showed it under the old association
+	// changes as well: bump the indexes of what it used to belong to.
+	if existing != nil {
+		old := existing.(*structs.HealthCheck)
+		if old.ServiceID != hc.ServiceID {
+			if old.ServiceID == "" {
+				if err := updateAllServiceIndexesOfNode(tx, idx, old.Node, &old.EnterpriseMeta, old.PeerName); err != nil {
+					return err
+				}
+			} else {
+				oldSvc, err := tx.First(tableServices, indexID, NodeServiceQuery{
+					EnterpriseMeta: old.EnterpriseMeta,
+					Node:           old.Node,
+					Service:        old.ServiceID,
+					PeerName:       old.PeerName,
+				})
+				if err != nil {
+					return fmt.Errorf("failed service lookup: %s", err)
+				}
+				if oldSvc != nil {
+					sn := oldSvc.(*structs.ServiceNode)
+					if err := catalogUpdateServiceIndexes(tx, idx, sn.ServiceName, &sn.EnterpriseMeta, sn.PeerName); err != nil {
+						return err
+					}
+					if err := catalogUpdateServiceKindIndexes(tx, idx, sn.ServiceKind, &sn.EnterpriseMeta, sn.PeerName); err != nil {
+						return err
+					}
+				}
+			}
+		}
+	}
+
 	modified := true
 	// If the check is associated with a service, check that we have
 	// a registration for the service.
